@@ -9,7 +9,7 @@ namespace Uquic.Proofs.Fields
 open Uquic.Model.H3.Fields Uquic.Gen.H3Fields
 open Uquic.Spec.H3Fields (isPseudoName lowerTchar fieldValueByte isDigitByte connectionSpecific allowedPseudo
   fieldSize sectionSize NameTokens ValueBytes NoConnectionSpecific TeTrailers PseudoKnown PseudoFirst PseudoUnique
-  ClSingle ClNumeric SizeOk WellFormedG WellFormed)
+  ClSingle ClNumeric SizeOk WellFormed)
 
 theorem fieldSize_nonneg (f : Field) : 0 ≤ fieldSize f := by simp only [fieldSize]; omega
 
@@ -34,7 +34,7 @@ theorem fieldValue_none (pre : List Field) (n : List Nat) (h : ∀ g ∈ pre, g.
 
 /-- the loop does not reject a field of a well-formed section -/
 theorem step_complete (ext : List Nat → Bool) (isReq : Bool) (lim : Int) (pre rest : List Field) (f : Field) (s : PS)
-    (inv : Inv isReq lim pre s) (wf : WellFormedG true isReq lim (pre ++ f :: rest)) :
+    (inv : Inv isReq lim pre s) (wf : WellFormed isReq lim (pre ++ f :: rest)) :
     ∃ s', stepField ext isReq s f = .ok s' := by
   have hfmem : f ∈ pre ++ f :: rest := by simp
   -- size
@@ -117,7 +117,7 @@ theorem step_complete (ext : List Nat → Bool) (isReq : Bool) (lim : Int) (pre 
     · simp only [hcl, if_false]; exact ⟨_, rfl⟩
 
 theorem run_complete (ext : List Nat → Bool) (isReq : Bool) (lim : Int) (rest : List Field) :
-    ∀ (pre : List Field) (s : PS), Inv isReq lim pre s → WellFormedG true isReq lim (pre ++ rest) →
+    ∀ (pre : List Field) (s : PS), Inv isReq lim pre s → WellFormed isReq lim (pre ++ rest) →
       ∃ s', runFields ext isReq s rest = .ok s' := by
   induction rest with
   | nil => intro pre s _ _; exact ⟨s, rfl⟩
@@ -132,29 +132,26 @@ theorem run_complete (ext : List Nat → Bool) (isReq : Bool) (lim : Int) (rest 
 def ClFits (fs : List Field) : Prop := ∀ f ∈ fs, f.1 = nContentLength → decVal f.2 < 2 ^ 63
 
 theorem accept_complete_of_wf (ext : List Nat → Bool) (isReq : Bool) (lim : Int) (fs : List Field)
-    (wf : WellFormedG true isReq lim fs) (hfit : ClFits fs) : ∃ h, parseHeaders ext isReq lim fs = .ok h := by
+    (wf : WellFormed isReq lim fs) (hfit : ClFits fs) : ∃ h, parseHeaders ext isReq lim fs = .ok h := by
   obtain ⟨s, hs⟩ := run_complete ext isReq lim fs [] _ (inv_init isReq lim) (by simpa using wf)
   have inv := inv_run ext isReq lim fs [] _ s (inv_init isReq lim) hs
   simp only [List.nil_append] at inv
   simp only [parseHeaders, parseHeadersQ, hs, Bool.false_eq_true, if_false]
   unfold finish
-  by_cases hc : s.clStr = []
-  · simp [hc]
-  · simp only [ne_eq, hc, not_false_eq_true, if_true]
-    cases hr : s.readCL with
-    | false => exact absurd (inv.clNone hr).2 hc
-    | true =>
-      obtain ⟨g, hg, hg1, hg2⟩ := inv.clWitness hr
-      have hd := (wf.cl_numeric g hg hg1).2
-      have hf := hfit g hg hg1
-      have : parseUint63 s.clStr = some (decVal s.clStr) := by
-        unfold parseUint63
-        rw [← hg2]
-        have h1 : g.2.isEmpty = false := by
-          rw [hg2]; simpa using hc
-        have h2 : g.2.all isDigit = true := List.all_eq_true.mpr (fun b hb => hd b hb)
-        simp [h1, h2, hf]
-      rw [this]; exact ⟨_, rfl⟩
+  cases hr : s.readCL with
+  | false => simp
+  | true =>
+    simp only [if_true]
+    obtain ⟨g, hg, hg1, hg2⟩ := inv.clWitness hr
+    obtain ⟨hne, hd⟩ := wf.cl_numeric g hg hg1
+    have hf := hfit g hg hg1
+    have : parseUint63 s.clStr = some (decVal s.clStr) := by
+      unfold parseUint63
+      rw [← hg2]
+      have h1 : g.2.isEmpty = false := by simpa using hne
+      have h2 : g.2.all isDigit = true := List.all_eq_true.mpr (fun b hb => hd b hb)
+      simp [h1, h2, hf]
+    rw [this]; exact ⟨_, rfl⟩
 
 theorem fits_of_ok (ext : List Nat → Bool) (isReq : Bool) (lim : Int) (fs : List Field) (h : Hdr)
     (hp : parseHeaders ext isReq lim fs = .ok h) : ClFits fs := by
@@ -164,17 +161,8 @@ theorem fits_of_ok (ext : List Nat → Bool) (isReq : Bool) (lim : Int) (fs : Li
   | false => exact absurd hn ((inv.clNone hr).1 f hfm)
   | true =>
     rw [inv.clSome hr f hfm hn]
-    unfold finish at hf
-    split at hf
-    · split at hf
-      · cases hf
-      · rename_i v hv
-        unfold parseUint63 at hv
-        split at hv
-        · rename_i hc; simp only [Bool.and_eq_true, decide_eq_true_eq] at hc; exact hc.2
-        · cases hv
-    · rename_i he
-      have : s.clStr = [] := by simpa using he
-      rw [this]; simp [decVal]
+    rcases finish_cl s h hf with h0 | ⟨_, _, _, hlt⟩
+    · rw [hr] at h0; cases h0
+    · exact hlt
 
 end Uquic.Proofs.Fields
